@@ -27,6 +27,10 @@ type c10Case struct {
 	Mode int      `json:"mode"`
 	In   []string `json:"in"`
 	In2  []string `json:"in2,omitempty"`
+	// Lens: the op is applied, in one circuit and in this order, to the prefixes In[:l] taken as Go
+	// sub-slices of ONE backing array (spare capacity behind every prefix), as a caller hashing parts of
+	// a longer vector does; every digest must equal the reference digest of the caller's values
+	Lens []int `json:"prefix_lengths,omitempty"`
 }
 
 func frOf(b *big.Int) fr.Element  { var e fr.Element; e.SetBigInt(b); return e }
@@ -127,7 +131,7 @@ func TestC10(t *testing.T) {
 	s := newSuite("C10")
 	r := s.r
 	defer r.Flush()
-	r.Rule("BN254 permutation on 4-element states (edges 0,1,r-1 in every slot and random); HashNoPad / HashOrNoop on canonical Goldilocks inputs of length 0..30 (covering the <=3 shortcut, the 9-element absorption boundary, partial last chunks); TwoToOne on random/edge hashes; ToVec on hash values incl. 0, r-1, 2^254-r-1 and random -- all compared with the reference PoseidonBN128 (validated on the iden3 vector and ~13k real Merkle/leaf permutations).  Injectivity as two-input properties evaluated in the circuit: equal-length canonical inputs of length <=3 differing in one element give different HashOrNoop values; different hash values give different ToVec vectors.  On compiled R1CS and SCS the bit-decomposition hint of ToVec is overridden with the bits of hash+r (when that fits 254 bits) and must be rejected.  Non-trivial = non-zero input; distinct = (op, inputs).")
+	r.Rule("BN254 permutation on 4-element states (edges 0,1,r-1 in every slot and random); HashNoPad / HashOrNoop on canonical Goldilocks inputs of length 0..30 (covering the <=3 shortcut, the 9-element absorption boundary, partial last chunks); TwoToOne on random/edge hashes; ToVec on hash values incl. 0, r-1, 2^254-r-1 and random -- all compared with the reference PoseidonBN128 (validated on the iden3 vector and ~13k real Merkle/leaf permutations).  HashNoPad / HashOrNoop applied 2-4 times in one circuit to prefixes of one vector held in one backing array (every digest must equal the reference digest of the caller's values).  Injectivity as two-input properties evaluated in the circuit: equal-length canonical inputs of length <=3 differing in one element give different HashOrNoop values; different hash values give different ToVec vectors.  On compiled R1CS and SCS the bit-decomposition hint of ToVec is overridden with the bits of hash+r (when that fits 254 bits) and must be rejected.  Non-trivial = non-zero input; distinct = (op, inputs).")
 	r.Assume("the BN254 reference uses the same optimised iden3 schedule with frozen constants; its independence rests on the KAT and real-proof Merkle paths")
 
 	s.on("eq", func(b json.RawMessage) caseResult {
@@ -141,6 +145,29 @@ func TestC10(t *testing.T) {
 			}
 		}
 		cr.Trivial = !nz
+		return cr
+	})
+	s.on("prefixes", func(b json.RawMessage) caseResult {
+		a := unmarshal[c10Case](b)
+		in := unstrs(a.In)
+		fn := func(api frontend.API, v []frontend.Variable) []frontend.Variable {
+			c := poseidon.NewBN254Chip(api)
+			xs := glvs(v)
+			var o []frontend.Variable
+			for _, l := range a.Lens {
+				if a.Op == "hashnopad" {
+					o = append(o, c.HashNoPad(xs[:l]))
+				} else {
+					o = append(o, c.HashOrNoop(xs[:l]))
+				}
+			}
+			return o
+		}
+		var want []*big.Int
+		for _, l := range a.Lens {
+			want = append(want, c10Ref(a.Op, in[:l])...)
+		}
+		cr := expectOutputsEng(fmt.Sprintf("%s on prefixes %v of one vector", a.Op, a.Lens), eng.Mode(a.Mode), in, fn, want)
 		return cr
 	})
 	s.on("inj", func(b json.RawMessage) caseResult {
@@ -273,6 +300,24 @@ func TestC10(t *testing.T) {
 			}
 		}
 		s.exec(rt, "eq", c10Case{Op: op, Mode: int(genMode().Draw(rt, "mode")), In: strs(in)}, class)
+	})
+	rapidCheck(t, "prefixes", tierN(600, 15000), func(rt *rapid.T) {
+		op := rapid.SampledFrom([]string{"hashnopad", "hashornoop"}).Draw(rt, "op")
+		n := rapid.IntRange(2, 24).Draw(rt, "len")
+		var in []*big.Int
+		for k := 0; k < n; k++ {
+			x := genGL().Draw(rt, "x")
+			if x == 0 {
+				x = uint64(k + 1) // zero padding must not go unnoticed
+			}
+			in = append(in, bu(x))
+		}
+		m := rapid.IntRange(2, 4).Draw(rt, "calls")
+		lens := make([]int, m)
+		for i := range lens {
+			lens[i] = rapid.IntRange(0, n).Draw(rt, "prefix")
+		}
+		s.exec(rt, "prefixes", c10Case{Op: op, Mode: int(genMode().Draw(rt, "mode")), In: strs(in), Lens: lens}, op+"/prefixes-of-one-vector")
 	})
 	rapidCheck(t, "inj", tierN(2000, 50000), func(rt *rapid.T) {
 		if rapid.Bool().Draw(rt, "chunks") {
